@@ -14,7 +14,7 @@ import numpy as np
 import scipy.stats as ss
 
 from vmon import contracts
-from vmon.core import Violation
+from vmon.core import Skip, Violation
 
 PROPERTY = 'C19'
 LEVEL = 'exploration'
@@ -47,7 +47,8 @@ CONFIG = {
     'quick': {'shards': 16, 'cases': 160, 'timeout': 600, 'floor': 512},
     'thorough': {'shards': 32, 'cases': 3200, 'timeout': 5400, 'floor': 20480},
 }
-REQUIRED = ['contract_sample', 'contract_contains', 'contract_pdf', 'contract_line_search', 'draws_checked',
+REQUIRED = ['e2e_runs_local_surrogates', 'e2e_runs_true_objectives', 'e2e_pdf_points', 'e2e_pdf_points_region_clause_matters', 'e2e_weights_checked',
+            'contract_sample', 'contract_contains', 'contract_pdf', 'contract_line_search', 'draws_checked',
             'contains_inside_checked', 'contains_outside_checked', 'pdf_inside_checked', 'pdf_outside_checked',
             'degenerate_limits_widened', 'volume_checked',
             'ls_start_below_checked', 'ls_start_above', 'ls_probes_checked', 'ls_nonmonotone', 'region_builds',
@@ -337,9 +338,18 @@ def gen_post(rng):
 KINDS = ['box'] * 9 + ['ls'] * 6 + ['post'] * 5
 
 
+def gen_e2e(rng):
+    return {'kind': 'e2e', 'seed': int(rng.integers(0, 2 ** 31 - 1)), 'n1': int(rng.integers(4, 9)), 'noise': float(rng.choice([0.2, 0.3, 0.5])),
+            'eps_region': float(rng.choice([0.1, 0.2])), 'eps_cutoff': float(rng.choice([0.1, 0.5, 1.0])), 'eps_filter': 0.5,
+            'fit_models': bool(rng.random() < 0.6), 'obs': float(rng.uniform(-0.5, 0.5)), 'n2': int(rng.integers(5, 21))}
+
+
 def gen_cases(ctx):
     rng = ctx.rng
-    for _ in range(ctx.ncases):
+    for i in range(ctx.ncases):
+        if i % 40 == 7:
+            yield gen_e2e(rng)
+            continue
         kind = KINDS[int(rng.integers(len(KINDS)))]
         yield {'box': gen_box, 'ls': gen_ls, 'post': gen_post}[kind](rng)
 
@@ -616,7 +626,69 @@ def run_post(ctx, case):
     ctx.nontrivial(d >= 2 and any(not np.allclose(Q, np.eye(d)) for Q, _ in geo))
 
 
+def _e2e_sim(theta, batch_size=1, random_state=None, noise=0.3):
+    rs = random_state or np.random
+    return np.asarray(theta).reshape(-1, 1) + noise * rs.randn(batch_size, 1)
+
+
+def run_e2e(ctx, case):
+    """ROMC end to end on a 1-d model (gradient based, optional local surrogate objectives): the posterior the inference object
+    hands out must satisfy the same density / weight definition as a directly constructed one, with the objectives and regions it holds."""
+    import contextlib
+    import functools
+    import io
+    import elfi
+    from vmon import compat
+    compat.install_romc_float()
+    m = elfi.ElfiModel(name='c19e2e')
+    th = elfi.Prior('uniform', -2.5, 5, model=m, name='theta')
+    y = elfi.Simulator(functools.partial(_e2e_sim, noise=case['noise']), th, observed=np.array([[case['obs']]]), model=m, name='y')
+    d = elfi.Distance('euclidean', y, model=m, name='d')
+    with contextlib.redirect_stdout(io.StringIO()):
+        romc = elfi.ROMC(d, bounds=[(-2.5, 2.5)])
+        romc.solve_problems(n1=case['n1'], seed=case['seed'] % 10000)
+        romc.estimate_regions(eps_filter=case['eps_filter'], eps_region=case['eps_region'], eps_cutoff=case['eps_cutoff'],
+                              fit_models=case['fit_models'])
+        post = romc.posterior
+        if post is None or not len(post.regions):
+            raise Skip('no accepted optimisation problem')
+        local = bool(case['fit_models'])
+        ctx.event('e2e_runs_local_surrogates' if local else 'e2e_runs_true_objectives')
+        grid = np.linspace(-2.4, 2.4, 49).reshape(-1, 1)
+        got = np.ravel(romc.eval_unnorm_posterior(grid))
+        prior_pdf = 1.0 / 5.0
+        cut = case['eps_cutoff']
+        for t, g in zip(grid, got):
+            vals = [float(np.ravel(f(t))[0]) for f in post.funcs]
+            if any(abs(v - cut) < 1e-9 for v in vals):
+                continue
+            in_cut = [v <= cut for v in vals]
+            in_reg = [bool(r.contains(t)) for r in post.regions]
+            want = prior_pdf * sum(1 for a, b in zip(in_cut, in_reg) if a and (b or not local))
+            ctx.event('e2e_pdf_points')
+            if sum(in_cut) != sum(1 for a, b in zip(in_cut, in_reg) if a and b):
+                ctx.event('e2e_pdf_points_region_clause_matters')
+            if not np.isclose(g, want, rtol=1e-9, atol=1e-12):
+                raise Violation('e2e-post-pdf', 'ROMC (fit_models=%s): unnormalised posterior at theta=%.3f is %r; prior x number of accepted problems within '
+                                'the cut-off%s is %r' % (local, float(t[0]), float(g), ' whose region contains the point' if local else '', want),
+                                {'theta': t, 'within_cutoff': in_cut, 'region_contains': in_reg})
+        romc.sample(n2=case['n2'], seed=case['seed'] % 10000)
+        for i, reg in enumerate(post.regions):
+            for j in range(case['n2']):
+                s_ = romc.samples[i, j]
+                v = float(np.ravel(post.funcs[i](s_))[0])
+                if abs(v - cut) < 1e-9:
+                    continue
+                w = (v < cut) * prior_pdf * reg.volume
+                ctx.event('e2e_weights_checked')
+                if not reg.contains(s_):
+                    raise Violation('e2e-sample-outside-region', 'ROMC drew a sample outside its region')
+                if not np.isclose(romc.weights[i, j], w, rtol=1e-9, atol=1e-12):
+                    raise Violation('e2e-post-weight', 'ROMC sample weight %r; indicator x prior / region density is %r' % (float(romc.weights[i, j]), w))
+    ctx.nontrivial(True)
+
+
 def run_case(ctx, case):
     ctx.event('cases_' + case['kind'])
     np.random.seed(case['seed'] % (2 ** 32))     # sample(seed=None) draws from the global generator: keep replays exact
-    {'box': run_box, 'ls': run_ls, 'post': run_post}[case['kind']](ctx, case)
+    {'box': run_box, 'ls': run_ls, 'post': run_post, 'e2e': run_e2e}[case['kind']](ctx, case)
